@@ -153,8 +153,8 @@ class Check:
 
 
 def _evidence_dir():
-    """/verif/evidence describes /repo only: a development run against another tree (TSG_REPO) writes under .work"""
-    if os.environ.get("TSG_REPO") and os.path.realpath(os.environ["TSG_REPO"]) != "/repo":
+    """/verif/evidence describes the unchanged /repo only: a development run against another tree (TSG_REPO) and the runs on a mutated or seeded /repo (tools/mut.sh, tools/try_seed.sh set TSG_SCRATCH_EVIDENCE) write under .work"""
+    if os.environ.get("TSG_SCRATCH_EVIDENCE") or (os.environ.get("TSG_REPO") and os.path.realpath(os.environ["TSG_REPO"]) != "/repo"):
         return os.path.join(VERIF, ".work", "evidence-dev")
     return os.path.join(VERIF, "evidence")
 
